@@ -8,7 +8,7 @@ PROP = "C08"
 DIR = None
 DIRS = ["A", "AB", "A/B", "A/B/C"]
 DIRS_X = DIRS + ["A/B/C/D", "E"]
-FMT = {"day1/cardA": ["md5"], "day2/cardA": ["md5"], ".hid": ["md5"], ".hid/.in": ["sha1"], "..two": ["xxh64"], "": ["xxh64"], "A": ["md5"], "AB": ["xxh64"], "A/B": ["sha1"], "A/B/C": ["c4"], "A/B/C/D": ["md5", "xxh3"], "E": ["md5"]}
+FMT = {"Cam A&B": ["md5"], "Cam A&B/in <1>": ["xxh64"], "day1/cardA": ["md5"], "day2/cardA": ["md5"], ".hid": ["md5"], ".hid/.in": ["sha1"], "..two": ["xxh64"], "": ["xxh64"], "A": ["md5"], "AB": ["xxh64"], "A/B": ["sha1"], "A/B/C": ["c4"], "A/B/C/D": ["md5", "xxh3"], "E": ["md5"]}
 
 
 def base_tree(dirs):
@@ -227,6 +227,8 @@ def main(tier, seed):
     plans.append(dict(dirs=[".hid", ".hid/.in", "..two"], max_cmds=3, ignores=False))   # nested roots whose names start with dots   # E: a nested root without any entry below it
     # nested roots with the SAME folder name in different places (their manifests of one run carry the same file name)
     plans.append(dict(dirs=["day1", "day1/cardA", "day2", "day2/cardA"], roots=["day1/cardA", "day2/cardA"], max_cmds=4, ignores=False))
+    # nested roots whose names hold the characters XML reserves (they appear in the references of the parent's manifests)
+    plans.append(dict(dirs=["Cam A&B", "Cam A&B/in <1>"], max_cmds=3, ignores=False))
     # a plain folder that holds a sub folder whose name is a case variant of the tool's own folder name (another name on this
     # file system): no history, nothing special
     plans.append(dict(dirs=["A", "docs", "docs/ASCMHL", "A/Ascmhl"], roots=["A"], max_cmds=3, ignores=False))
